@@ -1706,7 +1706,8 @@ end XotModel.Props
   NOT in `framed2`: create_missing_prefixes, deduplicate_namespaces.
 
   Inside the moved subtree: `C05_moved_subtree_intact` (generic: the node carries the same subtree in both forests)
-  and its instance `C05_frame_general_moved_detach`.  The other moves are not instantiated. -/
+  and its instances `C05_frame_general_moved_detach`, `C05_frame_general_moved_wrap`.  The other moves are not
+  instantiated. -/
 
 namespace XotModel.Props
 open XotModel Spec
@@ -1852,11 +1853,23 @@ theorem C05_frame_general_moved_detach {f : Forest} (inv : f.Inv) {n : Nat} (hn 
   obtain ⟨t, hg⟩ := Forest.get_of_live hn
   exact C05_moved_subtree_intact inv.nodup (Forest.detach_inv inv n).nodup hg (detach_get_moved inv hg) hm
 
+/-- ⟦C05_frame_general_moved_wrap⟧ `element_wrap(n, name)`: every node of the moved subtree (`n` itself included)
+    keeps its value and its children. -/
+theorem C05_frame_general_moved_wrap {f : Forest} (inv : f.Inv) {n name : Nat} (hn : f.isLive n = true)
+    (hok : (f.elementWrap n name).2.1 = .ok) {h : Nat}
+    (hm : h ∈ (Forest.XCall.call (.elementWrap n name)).movedSubtree f) :
+    (f.elementWrap n name).1.isLive h = true ∧ (f.elementWrap n name).1.value? h = f.value? h ∧
+    (f.elementWrap n name).1.kidHandles h = f.kidHandles h := by
+  obtain ⟨t, hg⟩ := Forest.get_of_live hn
+  exact C05_moved_subtree_intact inv.nodup (Forest.elementWrap_inv inv n name).nodup hg (wrap_get_moved inv hok hg) hm
+
 /-- Non-vacuity on `frameWitness`: `detach(u)` (3, with the children 4 5 6 7). -/
 example :
     let f := frameWitness
     f.inv = true ∧ (Forest.XCall.call (.detach 3)).movedSubtree f = [3, 4, 5, 6, 7] ∧
-    (f.detach 3).1.kidHandles 3 = [4, 5, 6, 7] ∧ (f.detach 3).1.value? 6 = f.value? 6 := by
+    (f.detach 3).1.kidHandles 3 = [4, 5, 6, 7] ∧ (f.detach 3).1.value? 6 = f.value? 6 ∧
+    (f.elementWrap 3 9).2.1 = .ok ∧ (f.elementWrap 3 9).1.kidHandles 3 = [4, 5, 6, 7] ∧
+    (f.elementWrap 3 9).1.value? 6 = f.value? 6 := by
   decide +kernel
 
 /-- ⟦C05_reachable_frame_general2_full⟧ … on every store a history of parses and API calls reaches from
